@@ -9,6 +9,7 @@ import ast
 
 from ..flow import CallGraph, self_stores, param_inplace, alias_closure, inplace_sinks, returns_alias
 from ..repo import AnalysisError, dotted, norm_text, walk_no_nested
+from ..intervals import range_at
 
 BEH = "EasyFEA.Models.InElastic._behavior.Behavior"
 SIM = "EasyFEA.Simulations._inelastic.InElastic"
@@ -541,7 +542,35 @@ def convergence_test_rule(ctx):
                 if not (reduces(lhs) or magnitude_first(lhs)):
                     continue
                 r.instance(fn=f.qualname)
-                if magnitude_first(lhs):
+                # the reduced quantity is a magnitude when the local definitions bound it below by zero (|r| taken on an earlier
+                # line, a norm, a sum of squares ...), whatever the spelling
+                # (the sign must be gone BEFORE the reduction: it is the operand of the outermost max / mean / sum that has to be
+                # non-negative, not the reduced value - |max(r)| is non-negative and still one-sided)
+                def operand(e):
+                    while isinstance(e, ast.Call) and (dotted(e.func) or "").split(".")[-1] in ("abs", "absolute", "fabs", "float") and e.args:
+                        e = e.args[0]
+                    if isinstance(e, ast.Call):
+                        d_ = dotted(e.func) or ""
+                        if d_.split(".")[-1] in ("max", "amax", "nanmax", "mean", "sum"):
+                            if isinstance(e.func, ast.Attribute) and not d_.startswith(("np.", "numpy.")):
+                                return e.func.value
+                            return e.args[0] if e.args else None
+                    return None
+
+                opnd = operand(lhs)
+                nonneg = opnd is not None and range_at(f.node, opnd, n)[0] >= 0.0
+                # or the same residual is bounded from below by a sibling test of the same `and` chain: -tol < min(r) and max(r) < tol
+                chain = next((b for b in ast.walk(f.node) if isinstance(b, ast.BoolOp) and isinstance(b.op, ast.And) and any(v is n for v in b.values)), None)
+                lower = False
+                if chain is not None:
+                    for v in chain.values:
+                        if v is n or not (isinstance(v, ast.Compare) and len(v.ops) == 1):
+                            continue
+                        a_, b_, op_ = v.left, v.comparators[0], v.ops[0]
+                        lo_side, hi_side = (a_, b_) if isinstance(op_, (ast.Lt, ast.LtE)) else (b_, a_) if isinstance(op_, (ast.Gt, ast.GtE)) else (None, None)
+                        if lo_side is not None and isinstance(lo_side, ast.UnaryOp) and isinstance(lo_side.op, ast.USub) and "tol" in norm_text(lo_side).lower() and any(isinstance(x, ast.Call) and ((dotted(x.func) or "").split(".")[-1] in ("min", "amin", "nanmin")) for x in ast.walk(hi_side)):
+                            lower = True
+                if magnitude_first(lhs) or nonneg or lower:
                     r.ok(f"{f.qualname}: {norm_text(n)[:70]}")
                 else:
                     r.fail(f.qualname, f"one-sided:{f.name}", f.file, n.lineno, f.name, f"`{norm_text(n)[:90]}` tests the signed extreme of the residual, not its magnitude over the batch: points whose residual has the other sign are declared converged and keep an out-of-balance state")
